@@ -123,9 +123,9 @@ func c04Oracle(c ledgerCase, blocks []*blockObs) []ev.Finding {
 		for _, d := range ledgerDenoms {
 			destroyed[d] = new(big.Int)
 		}
-		refundMinted := new(big.Int)  // Σ (limit − used) × price over committed eth txs
-		feesByUsed := new(big.Int)    // Σ gas charged × price  (what the sender really pays)
-		feesByLimit := new(big.Int)   // Σ limit × price over admitted eth txs
+		refundMinted := new(big.Int) // Σ (limit − used) × price over committed eth txs
+		feesByUsed := new(big.Int)   // Σ gas charged × price  (what the sender really pays)
+		feesByLimit := new(big.Int)  // Σ limit × price over admitted eth txs
 		alive := map[string]bool{}
 		for k, v := range b.ContractsAlivePre {
 			alive[k] = v
